@@ -33,6 +33,10 @@ def main(shift):
     out["coefficients"] = ((f + 2 * g) * (f * g) * v * dx + inner(h, grad(v)) * g * ds).signature()
     i, j = ufl.indices(2)
     out["indices"] = (h[i] * h[i] * v * dx + grad(h)[i, j] * grad(h)[j, i] * v * dx).signature()
+    i2, j2, k2 = ufl.indices(3)
+    T2 = grad(h)
+    out["indices_multi"] = (T2[i2, j2] * T2[i2, j2] * v * dx + T2[i2, j2] * T2[j2, k2] * T2[k2, i2] * v * dx
+                            + T2[i2, j2] * T2[j2, i2] * h[k2] * h[k2] * v * ds).signature()
     a = variable(f * g)
     b = variable(sin(f))
     out["variables"] = ((a * b + ufl.diff(a * a, a) + b) * v * dx).signature()
